@@ -638,11 +638,23 @@ func (f *File) WriteAt(p []byte, off int64) (n int, err error) {
 		return 0, err
 	}
 
+	// A positioned write must not move the offset used by Read, Write and Seek
+	curr, err := f.writeBuf.Seek(0, io.SeekCurrent)
+	if err != nil {
+		return 0, err
+	}
+
 	if _, err := f.seekWithoutLocking(off, io.SeekStart); err != nil {
 		return 0, err
 	}
 
-	return f.writeBuf.Write(p)
+	n, err = f.writeBuf.Write(p)
+
+	if _, serr := f.writeBuf.Seek(curr, io.SeekStart); serr != nil && err == nil {
+		err = serr
+	}
+
+	return n, err
 }
 
 func (f *File) WriteString(s string) (ret int, err error) {
